@@ -764,4 +764,81 @@ theorem build_reply_source (s : Mdns.Store) (q : Question) (now : Nat) :
     (by decide : ("AAAA" = "A") = False)]
   congr 1
 
+/-! ### 19. what a received response adds and reports (simple-mdns) -/
+
+def sectionNamed (p : Packet) (s : String) : List RR :=
+  if s = "answers" then p.answers else if s = "additional_records" then p.additional
+  else if s = "name_servers" then p.nameServers else []
+
+/-- the records `add_response_to_resources` keeps, by the sections it reads and the conditions it asks -/
+def ingestRecordsWith (sections conds : List String) (p : Packet) (service full : Name) : List RR :=
+  (sections.flatMap (sectionNamed p)).filter (fun r =>
+    (!conds.contains "not-the-own-name" || r.name != full) &&
+    (!conds.contains "below-the-service" || r.name.isSubdomainOf service))
+
+def modelIngestSections : List String := ["answers", "additional_records"]
+def modelIngestFilter : List String := ["below-the-service", "not-the-own-name"]
+
+/-- **both flavours of `add_response_to_resources` keep what the model keeps**: answers then
+additional records, not the discoverer's own instance, and only names below the watched service (a
+flavour that also reads the authority section, or drops one of the two conditions, regenerates other
+values and this fails) -/
+theorem ingest_source (p : Packet) (service full : Name) :
+    ∀ k < 2, Mdns.ingestRecords p service full =
+      ingestRecordsWith ((Gen.Env.ingestSections.getD k none).getD modelIngestSections)
+        ((Gen.Env.ingestFilter.getD k none).getD modelIngestFilter) p service full := by
+  have h : ∀ k < 2, (Gen.Env.ingestSections.getD k none).getD modelIngestSections = modelIngestSections ∧
+      (Gen.Env.ingestFilter.getD k none).getD modelIngestFilter = modelIngestFilter := by decide
+  intro k hk
+  rw [(h k hk).1, (h k hk).2]
+  simp [Mdns.ingestRecords, ingestRecordsWith, modelIngestSections, modelIngestFilter, sectionNamed]
+
+/-- what one record contributes to an `InstanceInformation`, by the arms of `from_records` -/
+def contributes (arms : List (String × String)) (i : Mdns.Instance) (r : RR) : Mdns.Instance :=
+  match r.rdata with
+  | .flat 1 [.int a] => if arms.lookup "A" = some "ipv4" then { i with ips := Mdns.insertNew i.ips (false, a) } else i
+  | .flat 28 [.int a] => if arms.lookup "AAAA" = some "ipv6" then { i with ips := Mdns.insertNew i.ips (true, a) } else i
+  | .flat 16 [.strs ss] =>
+    if arms.lookup "TXT" = some "attributes-with-a-key" then
+      { i with attrs := Mdns.attrsExtend i.attrs ((Txt.attributes ss).filter (fun e => !e.1.isEmpty)) }
+    else if arms.lookup "TXT" = some "attributes" then
+      { i with attrs := Mdns.attrsExtend i.attrs (Txt.attributes ss) }
+    else i
+  | .flat 33 [_, _, .int port, _] => if arms.lookup "SRV" = some "port" then { i with ports := Mdns.insertNew i.ports port } else i
+  | _ => i
+
+def fromRecordsWith (arms : List (String × String)) (service : Name) (records : List RR) : Option Mdns.Instance :=
+  let name := records.findSome? (fun r => r.name.without service)
+  let inst : Mdns.Instance := records.foldl (contributes arms) { name := [], ips := [], ports := [], attrs := [] }
+  name.map (fun n => { inst with name := Name.display n })
+
+def modelFromRecordsArms : List (String × String) :=
+  [("A", "ipv4"), ("AAAA", "ipv6"), ("TXT", "attributes-with-a-key"), ("SRV", "port")]
+
+/-- **`InstanceInformation::from_records` is the model's `fromRecords`**: A and AAAA records give
+addresses, SRV records ports, TXT records their attributes except those with an empty key, anything
+else nothing (an arm removed, or the empty-key filter dropped, regenerates other values and this
+fails) -/
+theorem from_records_source (service : Name) (records : List RR) :
+    Mdns.fromRecords service records =
+      fromRecordsWith (Gen.Env.fromRecordsArms.getD modelFromRecordsArms) service records := by
+  have h : Gen.Env.fromRecordsArms.getD modelFromRecordsArms = modelFromRecordsArms := by decide
+  rw [h]
+  have hc : ∀ (i : Mdns.Instance) (r : RR), contributes modelFromRecordsArms i r =
+      (match r.rdata with
+        | .flat 1 [.int a] => { i with ips := Mdns.insertNew i.ips (false, a) }
+        | .flat 28 [.int a] => { i with ips := Mdns.insertNew i.ips (true, a) }
+        | .flat 16 [.strs ss] =>
+          { i with attrs := Mdns.attrsExtend i.attrs ((Txt.attributes ss).filter (fun e => !e.1.isEmpty)) }
+        | .flat 33 [_, _, .int port, _] => { i with ports := Mdns.insertNew i.ports port }
+        | _ => i) := by
+    intro i r
+    unfold contributes
+    split <;> simp [modelFromRecordsArms, List.lookup]
+  simp only [Mdns.fromRecords, fromRecordsWith]
+  congr 2
+  first
+    | done
+    | (funext i r; exact (hc i r).symm)
+
 end Dns.TieEnv
